@@ -35,7 +35,7 @@ ASSUMPTIONS = [
 LEVEL_TEXT = (
     "Both recovery modes are computed on every generated run and related through an a-posteriori error model "
     "(measured table inconsistency, measured time-quadrature term, first-order space term), with ceilings, "
-    "monotonicity and zero-at-start checks; ladders check that the gap shrinks. Exploration."
+    "monotonicity (literal; falls of in-place recovery covered by the mass node 0 regains are a known finding, any other fall a violation) and zero-at-start checks; ladders check that the gap shrinks. Exploration."
 )
 
 C_GAP = 3.0
